@@ -16,6 +16,7 @@ from .parsing.response.specials import ExistsResponse, RecentResponse, \
     ExpungeResponse, FetchResponse
 from .parsing.specials import ObjectId, FetchAttribute, FetchValue, \
     Flag, SequenceSet
+from .parsing.specials.flag import Recent
 
 __all__ = ['SelectedSet', 'SynchronizedMessages', 'SelectedMailbox']
 
@@ -439,7 +440,9 @@ class SelectedMailbox:
             self._selected_set.add(copy, replace=self)
         if self._prev is not None:
             with_uid: bool = getattr(command, 'uid', False)
-            untagged = self._compare(self._prev, frozen, with_uid)
+            # The responses are built now, entirely from the frozen states:
+            # they may be written one at a time, while the mailbox changes.
+            untagged = list(self._compare(self._prev, frozen, with_uid))
         else:
             untagged = []
         return copy, untagged
@@ -449,8 +452,6 @@ class SelectedMailbox:
         if after.is_deleted:
             yield ResponseBye(b'Selected mailbox no longer exists.')
             return
-        cache = self._messages._cache
-        session_flags = self._session_flags
         expunged_uids = before.uids - after.uids
         new_uids = after.uids - before.uids
         if not self._hide_expunged and expunged_uids:
@@ -466,9 +467,15 @@ class SelectedMailbox:
         fetch_uids = chain(new_recent,
                            (uid for uid, _ in new_flags),
                            (uid for uid, _ in new_sflags))
+        if not (new_recent or new_flags or new_sflags):
+            return
+        after_flags = dict(after.flags)
+        after_sflags = dict(after.sflags)
         for uid, _ in groupby(sorted(fetch_uids)):
             seq = after.seqs_cache[uid]
-            msg_flags = cache[uid].get_flags(session_flags)
+            msg_flags = after_flags[uid] | after_sflags.get(uid, frozenset())
+            if uid in after.recent:
+                msg_flags |= {Recent}
             fetch_data: list[FetchValue] = [
                 FetchValue.of(_flags_attr, List(msg_flags, sort=True))]
             if with_uid:
